@@ -560,6 +560,14 @@ impl Epoch {
 
         let s = s_in.trim();
 
+        if !s.is_ascii() {
+            // Every valid representation is made of ASCII characters only, and the indexes below are byte offsets.
+            return Err(HifitimeError::Parse {
+                source: ParsingError::ISO8601,
+                details: "parsing as Gregorian",
+            });
+        }
+
         for (idx, char) in s.chars().enumerate() {
             if !char.is_numeric() || idx == s.len() - 1 {
                 if cur_token == Token::Timescale {
@@ -597,6 +605,12 @@ impl Epoch {
                         prev_token.value_ok(val)?;
                         // If these are the subseconds, we must convert them to nanoseconds
                         if prev_token == Token::Subsecond {
+                            if end_idx - prev_idx > 9 {
+                                return Err(HifitimeError::Parse {
+                                    source: ParsingError::ValueError,
+                                    details: "more than nine subsecond digits",
+                                });
+                            }
                             if end_idx - prev_idx != 9 {
                                 decomposed[pos] =
                                     val * 10_i32.pow((9 - (end_idx - prev_idx)) as u32);
